@@ -211,3 +211,35 @@ PLANS["C09"] = {
     "assumptions": ["QUIC helpers, HEC and SHA one-block entry points are exercised by the keys/abi engines, not "
                     "compared here", "SNOW3G/KASUMI n-buffer calls use at most 16 packets (documented limit)"],
 }
+
+PLANS["C10"] = {
+    "level": "exploration",
+    "runs": _simple("sgl", 2000, 200000, timeout=(1800, 7200)),
+    "cov_class": "C10",
+    "exhaustive": False,
+    "rule": ("cases = partitions: for every variant x {AES-GCM-128/192/256, ChaCha20-Poly1305} x direction x "
+             "message length 0..40 (thorough: 0..130) ALL partitions with one or two cuts (cuts at 0 and at the end "
+             "give empty segments) through the three interfaces (SGL job INIT/UPDATE/COMPLETE, SGL_ALL job with an "
+             "iov array, direct init/update/finalize), plus random partitions (1..40 segments of sizes from "
+             "{0,1,15,16,17,63,64,65,random}, messages up to 70 KiB) through all three interfaces and GMAC "
+             "init/update/finalize; concatenated output and tag must equal the one-shot reference. distinct = "
+             "(variant, algorithm, direction, length) exhaustive cells + random (variant, algorithm, segment "
+             "count, size class) tuples; every partition is a non-trivial case, their number is in "
+             "monitor_events.partitions_checked."),
+    "floors": {"quick": {"partitions_checked": 300000, "segment_calls": 800000}},
+    "assumptions": ["exhaustive over one/two-cut partitions only up to the stated length bound"],
+}
+PLANS["C11"] = {
+    "level": "exploration",
+    "runs": _simple("keys", 10000, 1000000),
+    "cov_class": "C11",
+    "rule": ("cases = helper calls per variant on structured (all-zero, all-one, single-bit, walking-byte) and "
+             "random keys: AES-128/192/256 expansion (both schedules vs FIPS-197 / equivalent inverse cipher), "
+             "CMAC sub-keys, XCBC K1/K2/K3, imb_hmac_ipad_opad for 7 hashes x key lengths around 1/2/3 blocks (MD5 "
+             "> 64 must be refused untouched), SM4 round keys, AES schedule inside gcm_key_data, six 3GPP IV "
+             "generators; DES weak/semi-weak keys, KASUMI/SNOW3G/DES schedules through consuming jobs; material "
+             "made by variant A consumed by a job on variant B. distinct = distinct (variant, helper, key class "
+             "/ key length) and (maker, user, algorithm) tuples."),
+    "floors": {"quick": {"helper_calls": 300000, "interchange_jobs": 8000}},
+    "assumptions": ["HMAC partial states via libcrypto low-level *_Transform and own SM3 compression function"],
+}
